@@ -463,3 +463,259 @@ Proof. intro H. unfold check_nfa. rewrite H. reflexivity. Qed.
 
 Lemma check_nfa_inv m r : check_nfa m = Ok r -> r = m /\ valid_nfa m = true.
 Proof. unfold check_nfa. destruct (valid_nfa m); [|discriminate]. intro H. inversion H. auto. Qed.
+
+(* ------------------------------------------------------------------ *)
+(* facts about a valid operand *)
+Section Operand.
+  Variable A : nfa.
+  Hypothesis Hv : valid_nfa A = true.
+
+  Lemma ops_valid_parts :
+    NoDup (n_states A) /\ NoDup (n_syms A) /\ NoDup (map fst (n_trans A)) /\
+    (forall q r, In (q, r) (n_trans A) -> forall a l, In (a, l) r ->
+        osym_ok (n_syms A) a = true /\ incl l (n_states A)) /\
+    In (n_init A) (n_states A) /\
+    (In (n_init A) (map fst (n_trans A)) \/ length (n_states A) <= 1) /\
+    incl (n_finals A) (n_states A).
+  Proof.
+    unfold valid_nfa in Hv. repeat rewrite andb_true_iff in Hv.
+    destruct Hv as [[[[[[H1 H2] H3] H4] H5] H6] H7].
+    split; [apply nodupb_NoDup; exact H1|]. split; [apply nodupb_NoDup; exact H2|].
+    split; [apply nodupb_NoDup; exact H3|]. split.
+    - intros q r Hin a l Hal. rewrite forallb_forall in H4. specialize (H4 _ Hin). simpl in H4.
+      unfold nrow_ok in H4. rewrite forallb_forall in H4. specialize (H4 _ Hal). simpl in H4.
+      apply andb_true_iff in H4. destruct H4 as [Ha Hl]. split; [exact Ha|apply subsetb_incl; exact Hl].
+    - split; [apply memb_In; exact H5|]. split; [|apply subsetb_incl; exact H7].
+      apply orb_true_iff in H6. destruct H6 as [H6|H6]; [left; apply memb_In; exact H6|right; apply Nat.leb_le; exact H6].
+  Qed.
+
+  Lemma arow_entry q a l : In (a, l) (arow A q) -> osym_ok (n_syms A) a = true /\ incl l (n_states A).
+  Proof.
+    unfold arow, tr_row, row. destruct (assoc q (n_trans A)) as [r|] eqn:E; [|intros []].
+    intro H. destruct ops_valid_parts as (_ & _ & _ & Hr & _). apply assoc_In in E. eapply Hr; eassumption.
+  Qed.
+
+  Lemma arow_assoc q r : assoc q (n_trans A) = Some r -> arow A q = r.
+  Proof. intro H. unfold arow, tr_row. unfold row. rewrite H. reflexivity. Qed.
+
+  Lemma edge_in_states q a t : n_edge A q a t -> In t (n_states A).
+  Proof.
+    unfold n_edge. rewrite n_targets_arow. intro H. destruct (xtg_In _ _ _ H) as [l [Hl Ht]].
+    destruct (arow_entry _ _ _ Hl) as [_ Hi]. apply Hi. exact Ht.
+  Qed.
+
+  Lemma edge_sym_ok q a t : n_edge A q a t -> osym_ok (n_syms A) a = true.
+  Proof.
+    unfold n_edge. rewrite n_targets_arow. intro H. destruct (xtg_In _ _ _ H) as [l [Hl Ht]].
+    destruct (arow_entry _ _ _ Hl) as [Hs _]. exact Hs.
+  Qed.
+
+  Lemma path_in_states q w t : In q (n_states A) -> nfa_path A q w t -> In t (n_states A).
+  Proof.
+    intros Hq H. induction H as [q|p q r w He Hp IH|p a q r w He Hp IH]; [exact Hq| |].
+    - apply IH. eapply edge_in_states. exact He.
+    - apply IH. eapply edge_in_states. exact He.
+  Qed.
+
+  Lemma lookups_ok_of_keyed : rows_keyed A = true -> lookups_ok A = true.
+  Proof.
+    intro Hk. destruct ops_valid_parts as (_ & _ & _ & Hr & Hi & _ & Hf).
+    unfold lookups_ok. repeat rewrite andb_true_iff. split; [split|].
+    - apply forallb_forall. intros [q r] Hin. simpl. destruct r as [|e r']; [reflexivity|].
+      apply andb_true_iff. split.
+      + unfold rows_keyed in Hk. rewrite forallb_forall in Hk. apply (Hk _ Hin).
+      + apply forallb_forall. intros [a l] Hal. simpl. apply subsetb_incl. eapply Hr; eassumption.
+    - apply memb_In. exact Hi.
+    - apply subsetb_incl. exact Hf.
+  Qed.
+End Operand.
+
+Lemma usyms_l A B a : osym_ok (n_syms A) a = true -> osym_ok (usyms A B) a = true.
+Proof.
+  destruct a as [s|]; simpl; [|reflexivity]. intro H. apply memb_In. apply memb_In in H.
+  unfold usyms. apply set_of_In. apply in_or_app. left. exact H.
+Qed.
+Lemma usyms_r A B a : osym_ok (n_syms B) a = true -> osym_ok (usyms A B) a = true.
+Proof.
+  destruct a as [s|]; simpl; [|reflexivity]. intro H. apply memb_In. apply memb_In in H.
+  unfold usyms. apply set_of_In. apply in_or_app. right. exact H.
+Qed.
+Lemma usyms_NoDup A B : NoDup (usyms A B).
+Proof. apply set_of_NoDup. Qed.
+
+Lemma NoDup_app_intro {X} (l m : list X) :
+  NoDup l -> NoDup m -> (forall x, In x l -> In x m -> False) -> NoDup (l ++ m).
+Proof.
+  intros Hl Hm Hd. induction l as [|a l IH]; simpl; [exact Hm|].
+  inversion Hl as [|? ? Hna Hl']; subst. constructor.
+  - intro H. apply in_app_or in H. destruct H as [H|H]; [contradiction|].
+    apply (Hd a); [left; reflexivity|exact H].
+  - apply IH; [exact Hl'|]. intros x Hx. apply Hd. right. exact Hx.
+Qed.
+
+Lemma NoDup_map_pair {T} (t : T) (l : list nat) : NoDup l -> NoDup (map (pair t) l).
+Proof. intro H. apply NoDup_map_on; [exact H|]. intros x y _ _ E. inversion E. reflexivity. Qed.
+
+(* paths inside an embedded copy of an operand *)
+Section Embed.
+  Context {X : Type}.
+  Variable A : nfa.
+  Variable EX : X -> option nat -> X -> Prop.
+  Variable f : nat -> X.
+  Hypothesis Hedge : forall q a y, EX (f q) a y <-> exists q', y = f q' /\ n_edge A q a q'.
+
+  Lemma embed_fwd q w q' : nfa_path A q w q' -> gpath EX (f q) w (f q').
+  Proof.
+    intro H. rewrite nfa_path_gpath in H.
+    apply (sim_fwd (n_edge A) EX f (fun _ => True)); [|exact I|exact H].
+    intros x a x' _ He. split; [exact I|]. apply Hedge. exists x'. auto.
+  Qed.
+
+  Lemma embed_bwd q w y : gpath EX (f q) w y -> exists q', y = f q' /\ nfa_path A q w q'.
+  Proof.
+    intro H.
+    destruct (sim_bwd (n_edge A) EX f (fun _ => True)) with (y0 := f q) (w := w) (y := y) (x := q)
+      as [q' [E [_ Hp]]]; auto.
+    - intros x a x' _ He. split; [exact I|]. apply Hedge. exists x'. auto.
+    - intros x a y' _ He. apply Hedge in He. exact He.
+    - exists q'. split; [exact E|]. apply nfa_path_gpath. exact Hp.
+  Qed.
+End Embed.
+
+(* ------------------------------------------------------------------ *)
+Section Union.
+  Variables A B : nfa.
+  Hypothesis HvA : valid_nfa A = true.
+  Hypothesis HvB : valid_nfa B = true.
+
+  Let xs := union_xs A B.
+  Let enc := fun x => pidx x xs.
+  Let EU := xedge (union_rowof A B).
+
+  Lemma union_edge1 q a y : EU (1, q) a y <-> exists q', y = (1, q') /\ n_edge A q a q'.
+  Proof.
+    unfold EU, xedge, union_rowof, n_edge. simpl. rewrite n_targets_arow. split.
+    - intros [r [Er Hy]]. inversion Er; subst r. rewrite xrow_map_tg in Hy.
+      apply in_map_iff in Hy. destruct Hy as [q' [E Hq']]. exists q'. auto.
+    - intros [q' [-> Hq']]. eexists. split; [reflexivity|]. rewrite xrow_map_tg. apply in_map. exact Hq'.
+  Qed.
+
+  Lemma union_edge2 q a y : EU (2, q) a y <-> exists q', y = (2, q') /\ n_edge B q a q'.
+  Proof.
+    unfold EU, xedge, union_rowof, n_edge. simpl. rewrite n_targets_arow. split.
+    - intros [r [Er Hy]]. inversion Er; subst r. rewrite xrow_map_tg in Hy.
+      apply in_map_iff in Hy. destruct Hy as [q' [E Hq']]. exists q'. auto.
+    - intros [q' [-> Hq']]. eexists. split; [reflexivity|]. rewrite xrow_map_tg. apply in_map. exact Hq'.
+  Qed.
+
+  Lemma union_edge0 k a y : EU (0, k) a y <-> a = None /\ (y = (1, n_init A) \/ y = (2, n_init B)).
+  Proof.
+    unfold EU, xedge, union_rowof. simpl. split.
+    - intros [r [Er Hy]]. inversion Er; subst r. unfold xtg in Hy. simpl in Hy.
+      destruct a as [s|]; simpl in Hy; [destruct Hy|].
+      split; [reflexivity|]. destruct Hy as [Hy|[Hy|[]]]; auto.
+    - intros [-> Hy]. eexists. split; [reflexivity|]. unfold xtg. simpl.
+      destruct Hy as [->| ->]; [left|right; left]; reflexivity.
+  Qed.
+
+  Lemma union_xs_NoDup : NoDup xs.
+  Proof.
+    destruct (ops_valid_parts A HvA) as (HnA & _). destruct (ops_valid_parts B HvB) as (HnB & _).
+    unfold xs, union_xs. constructor.
+    - intro H. apply in_app_or in H. destruct H as [H|H]; apply in_map_iff in H; destruct H as [q [E _]]; discriminate.
+    - apply NoDup_app_intro; [apply NoDup_map_pair; exact HnA|apply NoDup_map_pair; exact HnB|].
+      intros x H1 H2. apply in_map_iff in H1. apply in_map_iff in H2.
+      destruct H1 as [q1 [<- _]]. destruct H2 as [q2 [E _]]. discriminate.
+  Qed.
+
+  Lemma union_in1 q : In q (n_states A) -> In (1, q) xs.
+  Proof. intro H. unfold xs, union_xs. right. apply in_or_app. left. apply in_map. exact H. Qed.
+  Lemma union_in2 q : In q (n_states B) -> In (2, q) xs.
+  Proof. intro H. unfold xs, union_xs. right. apply in_or_app. right. apply in_map. exact H. Qed.
+
+  Lemma union_xs_inv x : In x xs ->
+    x = (0, 0) \/ (exists q, x = (1, q) /\ In q (n_states A)) \/ (exists q, x = (2, q) /\ In q (n_states B)).
+  Proof.
+    unfold xs, union_xs. intros [H|H]; [left; auto|]. right.
+    apply in_app_or in H. destruct H as [H|H]; apply in_map_iff in H; destruct H as [q [E Hq]]; [left|right]; exists q; auto.
+  Qed.
+
+  Lemma union_rows_ok : rows_ok xs (usyms A B) (union_rowof A B).
+  Proof.
+    destruct (ops_valid_parts A HvA) as (_ & _ & _ & _ & HiA & _).
+    destruct (ops_valid_parts B HvB) as (_ & _ & _ & _ & HiB & _).
+    intros x r Hx Er a l Hal.
+    destruct (union_xs_inv x Hx) as [->|[[q [-> Hq]]|[q [-> Hq]]]]; unfold union_rowof in Er; simpl in Er;
+      inversion Er; subst r; clear Er.
+    - destruct Hal as [Hal|[]]. inversion Hal; subst. split; [reflexivity|].
+      intros z [<-|[<-|[]]]; [apply union_in1; exact HiA|apply union_in2; exact HiB].
+    - apply xrow_map_entry in Hal. destruct Hal as [l0 [Hl0 ->]].
+      destruct (arow_entry A HvA _ _ _ Hl0) as [Hs Hi]. split; [apply usyms_l; exact Hs|].
+      intros z Hz. apply in_map_iff in Hz. destruct Hz as [t [<- Ht]]. apply union_in1. apply Hi. exact Ht.
+    - apply xrow_map_entry in Hal. destruct Hal as [l0 [Hl0 ->]].
+      destruct (arow_entry B HvB _ _ _ Hl0) as [Hs Hi]. split; [apply usyms_r; exact Hs|].
+      intros z Hz. apply in_map_iff in Hz. destruct Hz as [t [<- Ht]]. apply union_in2. apply Hi. exact Ht.
+  Qed.
+
+  Lemma union_fin_incl : incl (union_fin A B) xs.
+  Proof.
+    destruct (ops_valid_parts A HvA) as (_ & _ & _ & _ & _ & _ & HfA).
+    destruct (ops_valid_parts B HvB) as (_ & _ & _ & _ & _ & _ & HfB).
+    intros z Hz. unfold union_fin in Hz. apply in_app_or in Hz.
+    destruct Hz as [Hz|Hz]; apply in_map_iff in Hz; destruct Hz as [q [<- Hq]];
+      [apply union_in1; apply HfA|apply union_in2; apply HfB]; exact Hq.
+  Qed.
+
+  Lemma union_pre_valid : valid_nfa (union_pre A B) = true.
+  Proof.
+    unfold union_pre. apply asm_valid.
+    - intros x y. apply pidx_inj.
+    - apply union_rows_ok.
+    - left. reflexivity.
+    - apply union_fin_incl.
+    - apply union_xs_NoDup.
+    - apply usyms_NoDup.
+    - left. discriminate.
+  Qed.
+
+  Lemma union_pre_lang : L_nfa (union_pre A B) =L l_union (L_nfa A) (L_nfa B).
+  Proof.
+    intro w. unfold union_pre. rewrite asm_lang.
+    2: intros x y; apply pidx_inj. 2: apply union_rows_ok. 2: left; reflexivity. 2: apply union_fin_incl.
+    fold EU. unfold l_union, L_nfa. split.
+    - intros [y [Hp Hy]]. inversion Hp as [x|x y1 z w' He Hp'|x a y1 z w' He Hp']; subst.
+      + exfalso. unfold union_fin in Hy. apply in_app_or in Hy.
+        destruct Hy as [Hy|Hy]; apply in_map_iff in Hy; destruct Hy as [q [E _]]; discriminate.
+      + apply union_edge0 in He. destruct He as [_ [->| ->]].
+        * left. apply (embed_bwd A EU (pair 1) union_edge1) in Hp'. destruct Hp' as [q' [-> Hq']].
+          exists q'. split; [exact Hq'|]. unfold union_fin in Hy. apply in_app_or in Hy.
+          destruct Hy as [Hy|Hy]; apply in_map_iff in Hy; destruct Hy as [q [E Hq]]; inversion E; subst; exact Hq.
+        * right. apply (embed_bwd B EU (pair 2) union_edge2) in Hp'. destruct Hp' as [q' [-> Hq']].
+          exists q'. split; [exact Hq'|]. unfold union_fin in Hy. apply in_app_or in Hy.
+          destruct Hy as [Hy|Hy]; apply in_map_iff in Hy; destruct Hy as [q [E Hq]]; inversion E; subst; exact Hq.
+      + apply union_edge0 in He. destruct He as [He _]. discriminate.
+    - intros [[q [Hp Hq]]|[q [Hp Hq]]].
+      + exists (1, q). split.
+        * eapply gp_eps; [apply union_edge0; split; [reflexivity|left; reflexivity]|].
+          apply (embed_fwd A EU (pair 1) union_edge1). exact Hp.
+        * unfold union_fin. apply in_or_app. left. apply in_map. exact Hq.
+      + exists (2, q). split.
+        * eapply gp_eps; [apply union_edge0; split; [reflexivity|right; reflexivity]|].
+          apply (embed_fwd B EU (pair 2) union_edge2). exact Hp.
+        * unfold union_fin. apply in_or_app. right. apply in_map. exact Hq.
+  Qed.
+
+  Theorem ops_union_total : rows_keyed A = true -> rows_keyed B = true ->
+    exists R, nfa_union A B = Ok R /\ valid_nfa R = true.
+  Proof.
+    intros HkA HkB. exists (union_pre A B). split; [|apply union_pre_valid].
+    unfold nfa_union. rewrite (lookups_ok_of_keyed A HvA HkA), (lookups_ok_of_keyed B HvB HkB). simpl.
+    apply check_nfa_ok. apply union_pre_valid.
+  Qed.
+
+  Theorem ops_union_lang R : nfa_union A B = Ok R -> L_nfa R =L l_union (L_nfa A) (L_nfa B).
+  Proof.
+    unfold nfa_union. destruct (lookups_ok A && lookups_ok B); [|discriminate].
+    intro H. apply check_nfa_inv in H. destruct H as [-> _]. apply union_pre_lang.
+  Qed.
+End Union.
